@@ -251,4 +251,4 @@ def explain(case, obs):
     return ("the breaker contradicts C01.Exec.spec_ok: a call was rejected although 2(total-5) <= 3*accepts over the visible "
             "10 s or the coin was not below the ratio (c01_reject_only_on_excess / c01_never_cut_off_healthy), a rejected call "
             "ran req or its fallback did not get ErrServiceUnavailable, a completed call's outcome was altered, or history() "
-            "differs from the visible outcome log (c01_window_refines_log, c01_one_mark_per_admitted)")
+            "differs from the visible outcome log (c01_window_refines_log, c01_one_mark_per_call_let_in)")
